@@ -5,6 +5,7 @@ One execution = a small *scenario*: pool sizes (min, max) and one or two client 
     A = the accept loop's thread        B = a second thread (daemon.shutdown() caller / whoever ends connections)
 each a list of ops   ["S"] submit the next job (pool.process) | ["F", k] let job k end | ["X", k] let job k end by
 RAISING an exception (a fault inside the connection handler) | ["C"] pool.close()
+| ["Z"] submit the next job while Thread.start() fails (RuntimeError "can't start new thread": the system is out of threads)
 Jobs are callables that block on a harness event, so a job "runs" exactly as long as the scenario says.
 
 Everything the pool's threads share is a scheduling point:
@@ -74,6 +75,8 @@ def run_scenario(policy, mn, mx, progs, monitor=None, max_steps=4000):
     run.close_returned = False
     run.in_process = None
     run.in_closed_pool = None
+    run.fail_start = False
+    run.start_failed = False
     run.closed_set = False
     sc = None
     base_policy = policy
@@ -113,13 +116,18 @@ def run_scenario(policy, mn, mx, progs, monitor=None, max_steps=4000):
         if pool is not None and pool.__dict__.get("_closed", False):
             # sound: the fixed code starts a worker only under count_lock after reading closed == False under that lock
             run.in_closed_pool = run.in_closed_pool or "a new worker thread was started in a closed pool"
+        if run.fail_start:
+            run.start_failed = True
+            raise RuntimeError("can't start new thread")
         idx = len(run.workers)
         run.workers.append(self)
         tid = sc.adopt_start(self, "worker%d" % idx)
         run.worker_tid[idx] = tid
 
     def w_join(self, timeout=None):
-        idx = run.workers.index(self) if self in run.workers else None
+        if self not in run.workers:
+            raise RuntimeError("cannot join thread before it is started")     # what threading.Thread.join does
+        idx = run.workers.index(self)
         sc.point(("join", idx))
         if timeout is None and idx is not None:
             t = sc.threads[run.worker_tid[idx]]
@@ -161,7 +169,7 @@ def run_scenario(policy, mn, mx, progs, monitor=None, max_steps=4000):
     config.THREADPOOL_SIZE = mx
     config.THREADPOOL_SIZE_MIN = mn
     try:
-        njobs = sum(1 for p in progs for op in p if op[0] == "S")
+        njobs = sum(1 for p in progs for op in p if op[0] in ("S", "Z"))
         nev = max([njobs] + [op[1] + 1 for p in progs for op in p if op[0] in ("F", "X")])
         for k in range(nev):
             job_events.append(TEvent(sc, "job%d" % k, td))
@@ -194,13 +202,15 @@ def run_scenario(policy, mn, mx, progs, monitor=None, max_steps=4000):
                     sc.point(("op", pi, i))
                     if td.on:
                         return
-                    if op[0] == "S":
+                    if op[0] in ("S", "Z"):
                         k = len(run.jobs)
                         rec = {"status": "?", "worker": None, "runs": 0, "ended": 0, "ran_by": [],
                                "busy_at_refusal": None, "after_close": run.close_returned,
                                "max_active": active_workers(run)}
                         run.jobs.append(rec)
                         run.in_process = k
+                        run.fail_start = op[0] == "Z"
+                        run.start_failed = False
                         try:
                             pool.process(make_job(k))
                             rec["status"] = "a"
@@ -215,6 +225,8 @@ def run_scenario(policy, mn, mx, progs, monitor=None, max_steps=4000):
                         except Exception as e:      # noqa: an internal error of process() is an outcome
                             rec["status"] = "E:" + type(e).__name__
                             run.events.append(("error", k, type(e).__name__))
+                        rec["start_failed"] = run.start_failed
+                        run.fail_start = False
                         run.in_process = None
                     elif op[0] in ("F", "X"):
                         if op[0] == "X":
